@@ -177,6 +177,11 @@ def _render_constant(value):
     return r.as_cpp(), r.cpp_type().type
 
 
+def _unparen(txt):
+    "a numeric literal may be emitted inside one pair of parentheses"
+    return txt[1:-1] if len(txt) >= 2 and txt[0] == "(" and txt[-1] == ")" else txt
+
+
 def int_constant(v: int) -> bool:
     """
     post: _
@@ -185,6 +190,7 @@ def int_constant(v: int) -> bool:
     if r is None:
         return True
     txt, ty = r
+    txt = _unparen(txt)
     try:
         back = int(txt)
     except ValueError:
@@ -222,7 +228,7 @@ def float_constant_finite(v: float) -> bool:
     if r is None:
         return True
     txt, ty = r
-    return ty == "double" and float(txt) == v
+    return ty == "double" and float(_unparen(txt)) == v
 
 
 def float_constant_any(v: float) -> bool:
@@ -236,4 +242,4 @@ def float_constant_any(v: float) -> bool:
     # a C++ floating literal cannot spell nan or inf: those must be rejected
     if v != v or v in (float("inf"), float("-inf")):
         return False
-    return ty == "double" and float(txt) == v
+    return ty == "double" and float(_unparen(txt)) == v
